@@ -770,6 +770,16 @@ fn main() {
                         }
                     }
                 }
+                // "found there after restart, and is used without requesting a new one": the latched key lies complete and
+                // readable in the store throughout; a file-system call other than the read of that key failing once is no
+                // reason to ask the host for another key
+                if matches!(sc, Scenario::RestartWithKey | Scenario::RestartWithKeyNoIncarnation | Scenario::RestartWithKeyUpperCaseGuid) {
+                    let read_failed = std::fs::read_to_string(&ftrace).map(|tr| tr.lines().any(|l| l.contains("(INJECTED)") && l.contains(".key\"") && l.contains("O_RDONLY"))).unwrap_or(true);
+                    let acq = slot.st.lock().unwrap().acquires;
+                    if !read_failed && acq != 0 {
+                        out.lock().unwrap().push((format!("latched-key-not-reused:{:?}:{:?}:storage-fault", sc, f), format!("the host's latched key was complete and readable in the store; {kname}#{k} (not the read of that key) failed once with ENOSPC and the agent requested a new key ({acq} acquisitions)"), case.clone()));
+                    }
+                }
                 let _ = std::fs::remove_file(&ftrace);
                 for (sig, what) in inspect_store(&slot) {
                     out.lock().unwrap().push((format!("{sig}:{:?}:{:?}:storage-fault", sc, f), format!("after {kname}#{k} failed with ENOSPC: {what}"), case.clone()));
@@ -860,7 +870,7 @@ fn main() {
         res.cov("exhaustive", hit == total);
     }
     res.cov("window_syscalls_per_combination", json!(windows.iter().map(|w| json!({"scenario": format!("{:?}", w.0), "fault": format!("{:?}", w.1), "first": w.2, "last": w.3})).collect::<Vec<_>>()));
-    res.cov("rule", format!("for each of {} (scenario, host fault) combinations: the fault-free run is traced twice with strace (syscalls {SYSCALLS}); then one run per kill point = every invocation (by syscall name and per-syscall index, as strace counts) from the first connect to the host up to process exit (+1..3), killed with SIGKILL on entry; after each kill: no torn file under a final key name, the host's latched key is complete in the store, the mock host never saw an attest for a key that was not complete on disk; then a fresh process on the same store must reach an accepted signed request, without a new acquisition when the latched key was in the store; then (storage faults) one run per file-system call of the window in which that call fails once with ENOSPC and the agent keeps running, with the same oracles, and: when the failed call was the read-only open of a key file, no attest for that key afterwards unless the file was opened successfully again in between (strace -ttt times against the mock's attest log); then two runs in which the key folder's path is a regular file / a dangling symbolic link for good (no attest may ever be sent); distinct = kill points at which the process was actually killed", combos.len()));
+    res.cov("rule", format!("for each of {} (scenario, host fault) combinations: the fault-free run is traced twice with strace (syscalls {SYSCALLS}); then one run per kill point = every invocation (by syscall name and per-syscall index, as strace counts) from the first connect to the host up to process exit (+1..3), killed with SIGKILL on entry; after each kill: no torn file under a final key name, the host's latched key is complete in the store, the mock host never saw an attest for a key that was not complete on disk; then a fresh process on the same store must reach an accepted signed request, without a new acquisition when the latched key was in the store; then (storage faults) one run per file-system call of the window in which that call fails once with ENOSPC and the agent keeps running, with the same oracles, and: in the restart-with-key scenarios no new key is requested unless the failed call was the read of the latched key; when the failed call was the read-only open of a key file, no attest for that key afterwards unless the file was opened successfully again in between (strace -ttt times against the mock's attest log); then two runs in which the key folder's path is a regular file / a dangling symbolic link for good (no attest may ever be sent); distinct = kill points at which the process was actually killed", combos.len()));
     res.sample(json!({"scenario": "FreshLatch", "host_fault": "None", "window": windows.first().map(|w| w.4.iter().skip(w.2.saturating_sub(1) as usize).take(12).cloned().collect::<Vec<_>>())}));
     res.assume("process death = SIGKILL on syscall entry; power loss (page cache, metadata ordering) is not in the statement");
     res.assume("single-threaded subject (current-thread runtime, paused clock): the syscall sequence of the window is deterministic (compared between two fault-free runs)");
